@@ -183,8 +183,11 @@ impl Generator {
             Get | BinGet | LongBinGet => !self.state.memo.is_empty(),
 
             // PUT operations - need something to memoize (and not MARK)
+            // BINPUT has a one-byte index, so it is only usable while the next
+            // memo index still fits (otherwise it would re-define index len % 256)
             Put | BinPut | LongBinPut | Memoize => {
-                self.state.stack.len() >= 1
+                (opcode != BinPut || self.state.memo.len() < 256)
+                    && self.state.stack.len() >= 1
                     && self
                         .peek()
                         .is_some_and(|obj| !matches!(*obj.borrow(), StackObject::Mark))
